@@ -799,6 +799,14 @@ static Result execGet(const std::vector<std::string>& w) {
   throw BadOp();
   (void)numSuffix;
   stat("get_" + ty);
+  // a negative literal for an unsigned target is left undetermined by the documentation (the library negates
+  // modulo 2^n): the real code was run (no crash, no locale dependence), the answer itself is not compared
+  if ((ty == "uint" || ty == "ulong" || ty == "ushort" || ty == "vu" || ty.rfind("au", 0) == 0) && has(text, '-')) {
+    stat("get_no_claim");
+    if (res.oracle == "ok") res.oracle = "ok trivial";
+    res.impl = "noclaim";
+    return res;
+  }
   stat(res.impl.rfind("ERR", 0) == 0 ? "get_rejected" : "get_converted");
   if (res.oracle != "ok") return res;
   if (want == "?") { res.oracle = "ok trivial"; stat("get_no_claim"); }
@@ -1120,7 +1128,7 @@ static std::string genRt(Rng& r, const Args& a) {
 }
 
 // raw documents: rendered dialect documents, hand-written ones, and small mutations of them
-static std::string genIni(Rng& r, const Args&) {
+static std::string genIni(Rng& r, const Args& a) {
   static const std::vector<std::string> lits = {
       "# this file configures fruit colors in fruitsalad\n\n\n#these are no fruit but could also appear in fruit salad\n"
       "honeydewmelon = yellow\nwatermelon = green\n\nfruit.tropicalfruit.orange = orange\n\n[fruit]\nstrawberry = red\n"
@@ -1141,6 +1149,9 @@ static std::string genIni(Rng& r, const Args&) {
   }
   std::string pre;
   if (r.coin(1, 3)) pre = renderDoc(genDoc(r, 4, false, false).items);
+  // documents outside the documented dialect (after the mutation) belong to the hostile stream: the only claim
+  // there is "no crash, no hang" and the model is not compared (`--rawini 1` keeps them, for model development)
+  if (a.get("rawini", 0) == 0 && (!strictParse(doc) || !strictParse(pre))) { stat("ini_to_hostile"); return "hostile " + hx(doc); }
   return "ini " + std::string(r.coin(2, 3) ? "1" : "0") + " " + hx(pre) + " " + hx(doc);
 }
 
